@@ -1,4 +1,5 @@
 import Mdns.Driver.C16
+import Mdns.Driver.Wire
 /-
   Line-protocol driver (`lean_exe mdnsmodel`).
   stdin: op lines, each followed by the implementation's observation line `= ...`.
@@ -11,10 +12,12 @@ def splitToks (line : String) : List String :=
 
 def dispatchExec (op : String) (ts impl : List String) : Option String :=
   if op.startsWith "txt-" then Driver.C16.exec op ts impl
+  else if op == "decode" then Driver.Wire.exec op ts
   else none
 
 def dispatchMon (op : String) (ts impl : List String) : Option String :=
   if op.startsWith "txt-" then Driver.C16.monitor op ts impl
+  else if op == "decode" then Driver.Wire.monitor op ts impl
   else some "unknown-op"
 
 partial def loop (h : IO.FS.Stream) (out : IO.FS.Stream) (cur : Option (List String)) : IO Unit := do
